@@ -249,6 +249,8 @@ let run_nb (id : ostring) (body : Sx.t list) : ostring =
           (match lst op with
            | [A "add"; L ts] -> scores := add_targets split_hp hportc !scores (List.map cstr_of_sx ts)
            | [A "inc"; t] -> scores := incentive !scores (cstr_of_sx t)
+           | [A "setres"; ip; port; A "fail"] -> Hashtbl.replace rst (str ip, str port) None
+           | [A "setres"; ip; port; t] -> Hashtbl.replace rst (str ip, str port) (Some (cstr_of_sx t))
            | [A "sync"; L outs; L fans] ->
              let m = known seedm !scores in
              let order = List.map fst m in
@@ -312,6 +314,51 @@ let run_progress (id : ostring) (body : Sx.t list) : ostring =
     if m = str got then "OK " ^ id ^ " 1" else Printf.sprintf "MISMATCH %s 0 progress model=%s go=%s" id m (str got)
   | _ -> "BADCASE " ^ id
 
+(* ------------------------------------------------------------------ wire (C15) *)
+let hex_of_ostring (s : ostring) : ostring =
+  let b = Buffer.create (2 * String.length s) in
+  String.iter (fun c -> Buffer.add_string b (Printf.sprintf "%02x" (Char.code c))) s; Buffer.contents b
+
+let run_wire (id : ostring) (body : Sx.t list) : ostring =
+  match body with
+  | [A "block"; b; gobytes; gohash] ->
+    let blk = block_of_sx b in
+    let mb = ostr (render (marshal_block blk)) in
+    let mh = hex_of_hash (block_hash_sha blk) in
+    if mb <> str gobytes then Printf.sprintf "MISMATCH %s 0 encode model=%s go=%s" id mb (str gobytes)
+    else if mh <> str gohash then Printf.sprintf "MISMATCH %s 0 hash model=%s go=%s" id mh (str gohash)
+    else begin
+      (* transaction ids: the model's SHA-256 of the id body *)
+      let bad = List.filter (fun t -> ostr (gen_id_sha t.t_ins t.t_outs t.t_ts) <> ostr t.t_id) (match blk.b_txs with Some l -> l | None -> []) in
+      match bad with
+      | [] -> "OK " ^ id ^ " 1"
+      | t :: _ -> Printf.sprintf "MISMATCH %s 0 txid model=%s go=%s" id (ostr (gen_id_sha t.t_ins t.t_outs t.t_ts)) (ostr t.t_id)
+    end
+  | _ -> "BADCASE " ^ id
+
+let derr_ok (go : ostring) = String.length go >= 3 && String.sub go 0 3 = "ok:"
+
+let run_decode (id : ostring) (body : Sx.t list) : ostring =
+  match body with
+  | [A kind; text; got] ->
+    let go = str got in
+    (try
+      let tree = Jsonp.parse (str text) in
+      let on_curve _ = true in
+      let m = match kind with
+        | "tx" -> (match unmarshal_tx on_curve sha256 tree with
+            | Ok t -> "ok:" ^ hex_of_ostring (ostr (render (marshal_tx t)))
+            | Err _ -> "err")
+        | _ -> (match unmarshal_blocks on_curve sha256 tree with
+            | Ok l -> "ok:" ^ hex_of_ostring (ostr (render (JArr (List.map (function None -> JNull | Some b -> marshal_block b) l))))
+            | Err _ -> "err") in
+      let g = if derr_ok go then go else "err" in
+      if m = g then "OK " ^ id ^ " 1"
+      else Printf.sprintf "MISMATCH %s 0 decode(%s) model=%s go=%s" id kind (if String.length m > 300 then String.sub m 0 300 else m) (if String.length go > 300 then String.sub go 0 300 else go)
+    with Jsonp.Json_error e ->
+      if derr_ok go then Printf.sprintf "MISMATCH %s 0 decode: the glue parser rejects text that Go accepts (%s)" id e else "OK " ^ id ^ " 1")
+  | _ -> "BADCASE " ^ id
+
 (* ------------------------------------------------------------------ main *)
 let () =
   let file = Sys.argv.(1) in
@@ -324,6 +371,8 @@ let () =
         | L (A "nodecase" :: A id :: body) -> run_node id body
         | L (A "pagecase" :: A id :: body) -> run_page id body
         | L (A "nbcase" :: A id :: body) -> run_nb id body
+        | L (A "wirecase" :: A id :: body) -> run_wire id body
+        | L (A "decodecase" :: A id :: body) -> run_decode id body
         | L (A "walletcase" :: A id :: body) -> run_wallet id body
         | L (A "amountcase" :: A id :: body) -> run_amount id body
         | L (A "progresscase" :: A id :: body) -> run_progress id body
